@@ -334,8 +334,20 @@ func VerifC06_TwoChildren() {
 	for _, o := range observedList {
 		desired.InitGroup(o.GroupVersionKind())
 	}
+	// the first child request of the sync may be refused by the API server (RBAC,
+	// an admission webhook, a 500): every OTHER child still gets the write its
+	// strategy asks for
+	if rt.Bool("the-first-child-request-is-refused") {
+		rt.Cover("two-children/first-request-refused")
+		w.Srv.ArmFault(0, env.FaultInternal, "", false)
+	}
 	err := ManageChildren(w.Dyn, verifStrategy{v1alpha1.ChildUpdateMethod(method)}, parent, observed, desired, &ApplyOptions{Strategy: ApplyStrategyDynamicApply})
 	anyErr := false
+	for _, r := range w.Srv.Log {
+		if r.Err != nil {
+			anyErr = true
+		}
+	}
 	for _, k := range kids {
 		want, wantErr := verifC06Expected(k, method)
 		if wantErr {
